@@ -126,6 +126,14 @@ CHECKS["C18"] = dict(
     ref="C18",
 )
 
+CHECKS["C16"] = dict(
+    technique="Coq proof (induction over the target list with an invariant on the loaded set) that get_modules yields no module twice; model tied by vm_compute correspondence with the real get_modules on generated plugin packages; call-log oracle for multiplicity, selection, settings injection and every signature class through the real CLI",
+    category="proof",
+    text="Partial. Lib/Loader.v models get_modules over load targets (plain module / package with its walked leaves) with module identity = import name; modules_once is proved for every list of targets (duplicates, a package and its own sub-module, the built-in package again) and the model is compared with the real generator on every target list up to length 2 (3 in thorough). Everything that depends on Python's import system, inspect.signature and the visitor is executed: generated plugin checks append to a call log; each check must be called exactly once per matching node and never when unselected (11 selections), see the settings when it asks for them, and each of 9 invalid signatures must be rejected with `file:line: reason` and exit 1 while 5 valid ones run. One file under two import names is execution only.",
+    note="Trusted: Coq kernel; model-code correspondence for Lib/Loader.v; the call log as oracle. Import aliasing and signature validation: execution only.",
+    ref="C16",
+)
+
 NOT_APPLICABLE = {}
 
 
